@@ -12,7 +12,9 @@ import Cutadapt.Proofs.KmerCompose
 #print axioms Cutadapt.C07.overlap_level_safe
 #print axioms Cutadapt.C07.overlap_levels_cover
 #print axioms Cutadapt.C07.prefilter_unsafe_witness
+#print axioms Cutadapt.C07.anywhere_short_read_repaired
 #print axioms Cutadapt.C07.w2_ok
+#print axioms Cutadapt.C07.w4_ok
 #print axioms Cutadapt.C07.prefilter_not_safe
 #print axioms Cutadapt.C07.prefilter_only_removes
 #print axioms Cutadapt.C07.prefilter_safe_partial
